@@ -30,6 +30,9 @@ def anchored_modules(prop):
     return out
 
 
+BUDGET_S = int(os.environ.get("BB_BUDGET_S", "240"))
+
+
 def run_check(prop: str, tier: str, seed: int) -> int:
     t0 = time.time()
     level = "other"
@@ -58,10 +61,26 @@ def run_check(prop: str, tier: str, seed: int) -> int:
         from . import iterators
 
         iterators.check_modules(ctx, f"{prop}-gg", anchored)
+        from .rules.dtypes import check_unsort
+
+        check_unsort(ctx, f"{prop}-gg", anchored)
         # shared rule W: decorated public functions mean the same under every calling convention
         from .rules.common import check_wrappers
 
         check_wrappers(ctx, f"{prop}-ww", anchored)
+        # shared rule D: double precision throughout (no narrower floating type named anywhere in the package)
+        from .rules.dtypes import check_precision
+
+        check_precision(ctx, f"{prop}-dd", anchored + rest)
+        # wall-clock limit for the rule module (the clean tree needs seconds): a term explosion on an unusual variant
+        # ends as ANALYSIS-ERROR, never as a hang
+        import signal
+
+        def _too_long(_sig, _frm):
+            raise AnalysisError(f"time budget of {BUDGET_S} s exceeded while evaluating the rules of {prop}")
+
+        old_handler = signal.signal(signal.SIGALRM, _too_long)
+        signal.alarm(BUDGET_S)
         try:
             mod.check(ctx)
         except (AnalysisError, NFError) as e:
@@ -70,6 +89,9 @@ def run_check(prop: str, tier: str, seed: int) -> int:
             # a positive finding stands even if later rules could not be evaluated
             ctx.notes.append(f"remaining rules not evaluated: {e}")
             print(f"note: remaining rules of {prop} could not be evaluated: {e}")
+        finally:
+            signal.alarm(0)
+            signal.signal(signal.SIGALRM, old_handler)
         extra_cov, extra_exit = None, 0
         if tier == "thorough":
             from . import selftest
